@@ -231,6 +231,9 @@ pub struct CallInfo {
     pub res: Option<CallRes>,
     /// aborted and joined as cancelled: no result is expected
     pub cancelled: bool,
+    /// blocking client: the caller thread stays alive and takes further jobs, so a follow-up call can be
+    /// issued from the SAME OS thread (per-thread state in the client must not leak between calls)
+    pub worker: Option<mpsc::Sender<(usize, Value, Option<Duration>)>>,
 }
 
 pub struct Calls {
@@ -259,18 +262,24 @@ impl Calls {
             Err(e) => CallRes::Err(format!("{}: {}", ekind(&e), trunc(&e.to_string(), 120))),
         };
         let mut handle = None;
+        let mut worker = None;
         match cli.clone() {
             Cli::Sync(c) => {
+                let (jtx, jrx) = mpsc::channel::<(usize, Value, Option<Duration>)>();
+                let _ = jtx.send((idx, body.clone(), timeout));
+                worker = Some(jtx);
                 let r = std::thread::Builder::new().stack_size(256 << 10).spawn(move || {
-                    let r = catching(|| match timeout {
-                        None => c.call_json(PATH, &body),
-                        Some(d) => c.call_json_with_timeout(PATH, &body, d),
-                    });
-                    let res = match r {
-                        Ok(r) => conv(r),
-                        Err(p) => CallRes::Panic(p),
-                    };
-                    let _ = tx.send(Done { idx, res });
+                    while let Ok((idx, body, timeout)) = jrx.recv() {
+                        let r = catching(|| match timeout {
+                            None => c.call_json(PATH, &body),
+                            Some(d) => c.call_json_with_timeout(PATH, &body, d),
+                        });
+                        let res = match r {
+                            Ok(r) => conv(r),
+                            Err(p) => CallRes::Panic(p),
+                        };
+                        let _ = tx.send(Done { idx, res });
+                    }
                 });
                 if let Err(e) = r {
                     let _ = self.tx.send(Done { idx, res: CallRes::Panic(format!("harness: thread spawn failed: {e}")) });
@@ -295,8 +304,20 @@ impl Calls {
                 }));
             }
         }
-        self.v.push(CallInfo { token, timeout, handle, res: None, cancelled: false });
+        self.v.push(CallInfo { token, timeout, handle, res: None, cancelled: false, worker });
         idx
+    }
+    /// Issue a call from the same OS thread that made call `from` (blocking client; that call must have
+    /// returned). Other clients: an ordinary launch.
+    pub fn launch_same_thread(&mut self, env: &Env, cli: &Cli, from: usize, token: u64, pad: usize, timeout: Option<Duration>) -> usize {
+        if let Some(w) = self.v.get(from).and_then(|c| c.worker.clone()) {
+            let idx = self.v.len();
+            if w.send((idx, body_for(token, pad), timeout)).is_ok() {
+                self.v.push(CallInfo { token, timeout, handle: None, res: None, cancelled: false, worker: Some(w) });
+                return idx;
+            }
+        }
+        self.launch(env, cli, token, pad, timeout)
     }
     /// Blocking client only: a caller thread that is already running and spins until `go` is set,
     /// then waits `delay_us` more and calls. Used to land registrations inside a window of a few
@@ -328,7 +349,7 @@ impl Calls {
         if let Err(e) = r {
             let _ = self.tx.send(Done { idx, res: CallRes::Panic(format!("harness: thread spawn failed: {e}")) });
         }
-        self.v.push(CallInfo { token, timeout, handle: None, res: None, cancelled: false });
+        self.v.push(CallInfo { token, timeout, handle: None, res: None, cancelled: false, worker: None });
         idx
     }
     fn absorb(&mut self, d: Done) {
